@@ -34,8 +34,12 @@ TASK: act as a careful MAINTAINER. Produce THREE different, realistic commits th
   - restructure control flow (early return instead of nested if, `if/else` swapped with the condition negated, a loop instead of a comprehension or vice versa, a guard clause moved to the top when nothing before it has an effect);
   - replace an expression by an equivalent one (`jnp.minimum(x, 1.0)` for `jnp.clip(x, max=1.0)`, `not a or not b` for `not (a and b)`, keyword arguments instead of positional ones, a temporary variable introduced or removed);
   - add type annotations, a docstring, comments, a log/debug message, an unused keyword-only parameter with a default, a `__repr__`, an assertion message;
-  - move a function within its module, reorder methods, tidy imports.
-Each of the three commits should combine two or three such edits at the anchored code (not only cosmetic whitespace), use a DIFFERENT kind of edit than the other two, and be something you would defend in code review as "no functional change". Do not change public signatures' positional parameters, defaults that callers rely on, or numerical operation order (floating-point results must be bit-identical).
+  - move a function within its module, reorder methods, tidy imports;
+  - change an iteration idiom (`enumerate` / `zip` / `range(len(...))` / `dict.items()` / tuple unpacking in the loop header), merge two adjacent loops over the same sequence or split one loop in two when the iterations are independent;
+  - merge duplicated code of two sibling methods into a shared private helper or a small private base-class method; turn a private method into a module-level function (or back) and update its callers;
+  - replace a chain of `if/elif` on a value by a lookup in a small dict or tuple of alternatives (or the converse), use a conditional expression, the walrus operator, `dict.get`, `any`/`all`, `sum(...)`, `functools.partial` where they express the same computation;
+  - introduce a small private dataclass / NamedTuple for values that travel together inside one function, or remove one.
+Prefer the LESS obvious kinds of the list (the last four bullets, helper extraction with several call sites, restructured loops) over plain renames. Each of the three commits should combine two or three such edits at the anchored code (not only cosmetic whitespace), use a DIFFERENT kind of edit than the other two, and be something you would defend in code review as "no functional change". Do not change public signatures' positional parameters, defaults that callers rely on, or numerical operation order (floating-point results must be bit-identical).
 
 For each change, in a new directory {wt}/_twin/<short_name>/ :
   - patch.diff : output of `git diff` for liesel/ against HEAD (applicable with `git apply` from the worktree root); each patch is independent, against unmodified HEAD;
